@@ -96,6 +96,18 @@ def sharp3(rng):
             "total_mode": "given", "noise_seed": rng.randrange(10 ** 6)}
 
 
+def missing_end_codes(rng):
+    """The public records never take the first (or last) value of a measured attribute, the private data do."""
+    lo = rng.choice([0, 1])
+    avals = [1, 2] if lo else [0, 1]                 # attribute a has 3 values; the public sample lacks value 0 or value 2
+    pub = [[rng.choice(avals), rng.randrange(3)] for _ in range(rng.randint(4, 8))]
+    pub[0][0], pub[1][0] = avals[0], avals[1]
+    priv = [[rng.randrange(3), rng.randrange(3)] for _ in range(rng.choice([40, 300]))]
+    return {"attrs": ["a", "b"], "sizes": [3, 3], "public": pub, "private": priv,
+            "meas": [{"proj": ["a"], "kind": "identity", "noise": 1.0}, {"proj": ["a", "b"], "kind": "identity", "noise": 2.0}],
+            "total_mode": rng.choice(["given", "estimated"]), "noise_seed": rng.randrange(10 ** 6)}
+
+
 def shared_query(rng):
     """Two attributes of equal size measured with the SAME identity matrix object, with answers that differ a lot."""
     cells = [(i, j) for i in range(4) for j in range(4)]
@@ -257,7 +269,7 @@ def run(ctx, canary=False):
         ctx.violation("design-level: %s violated in PublicMD.tla" % r.violated, {"tlc": r.trace_text()}, {"kind": "design"})
     traces = []
     stats = {"negative_rhs_steps": 0, "accepted_increase": 0, "runs": 0}
-    scs = [scenario(rng) for _ in range(900 if thorough else 110)] + [precise_vs_imprecise(rng) for _ in range(60 if thorough else 8)] + [big_prefix(rng) for _ in range(20 if thorough else 4)] + [degenerate(rng) for _ in range(30 if thorough else 6)] + [KNOWN_DEGENERATE] + [shared_query(rng) for _ in range(40 if thorough else 8)] + [sharp(rng) for _ in range(60 if thorough else 6)] + [sharp3(rng) for _ in range(400 if thorough else 120)]
+    scs = [scenario(rng) for _ in range(900 if thorough else 110)] + [precise_vs_imprecise(rng) for _ in range(60 if thorough else 8)] + [big_prefix(rng) for _ in range(20 if thorough else 4)] + [degenerate(rng) for _ in range(30 if thorough else 6)] + [KNOWN_DEGENERATE] + [shared_query(rng) for _ in range(40 if thorough else 8)] + [missing_end_codes(rng) for _ in range(60 if thorough else 12)] + [sharp(rng) for _ in range(60 if thorough else 6)] + [sharp3(rng) for _ in range(400 if thorough else 120)]
     import multiprocessing
     with multiprocessing.get_context("fork").Pool(16) as pool:
         outs = pool.map(one_run, scs, chunksize=2)
